@@ -5,9 +5,10 @@
 (* TestRequests, rejects bad messages and replays for ResendRequests.      *)
 (* Each line is one run:                                                   *)
 (*   wire    : messages in the order they left the outbound channel        *)
-(*             [n, pd, app, persisted]  (persisted: the very bytes had     *)
-(*             been handed to the store before the message was received    *)
-(*             from the channel)                                           *)
+(*             [n, pd, app, persisted, stored]  (persisted: the very bytes *)
+(*             had been handed to the store before the message was         *)
+(*             received from the channel; stored: the store returns them   *)
+(*             under n when the epoch ends)                                *)
 (*   saved   : numbers given to SaveMessageAndIncr, in call order          *)
 (*   windows : [from, to] positions of wire between a ResendRequest and    *)
 (*             the Heartbeat answering the TestRequest sent right after it *)
@@ -35,13 +36,15 @@ CountLiveApp(w, i, acc) ==
 LiveNumbers(w) == {w[i].n : i \in {j \in DOMAIN w : ~w[j].pd}}
 
 Fails(r) ==
-    {c \in {"consecutive", "storeNext", "wireOrder", "allTransmitted", "persistBeforeWire", "noLiveInsideReplay"} :
+    {c \in {"consecutive", "storeNext", "wireOrder", "allTransmitted", "persistBeforeWire", "retrievable", "noLiveInsideReplay"} :
        ~ CASE c = "consecutive" -> ~r.dupSave /\ \A i \in DOMAIN r.saved : r.saved[i] = i
            [] c = "storeNext" -> r.nextOut = Len(r.saved) + 1
            [] c = "wireOrder" -> Increasing(r.wire, 1, 0)
            [] c = "allTransmitted" -> /\ LiveNumbers(r.wire) = 1..Len(r.saved)
                                       /\ CountLiveApp(r.wire, 1, 0) = r.submitted
            [] c = "persistBeforeWire" -> \A i \in DOMAIN r.wire : ~r.wire[i].pd => r.wire[i].persisted
+           \* ... retrievable from the message store under n: asked of the store itself when the epoch ends
+           [] c = "retrievable" -> \A i \in DOMAIN r.wire : ~r.wire[i].pd => r.wire[i].stored
            [] c = "noLiveInsideReplay" -> \A k \in DOMAIN r.windows : NoLiveInside(r.wire, r.windows[k][1], r.windows[k][2], 0)}
 
 TraceInit == l = 1
